@@ -107,7 +107,7 @@ func solveAll(obls []*Obligation, outDir string, tmo int, mode string) {
 			o.Res = solve(o.File, t, "reach")
 			return
 		}
-		o.Res = solve(o.File, tmo, mode)
+		o.Res = solveAdaptive(o.File, o.SMT, tmo, mode)
 	})
 }
 
@@ -169,6 +169,9 @@ func cmdFn(args []string) {
 				fmt.Printf("  %s %-8s %-70s %s %s %.2fs %v\n", mark, o.Kind, o.Name, o.Res.Status, o.Res.Solver, o.Res.TimeS, o.Tags)
 				if !o.ok() && o.Res.Output != "" {
 					fmt.Println("       ", firstLines(o.Res.Output, 2))
+				}
+				if !o.ok() {
+					fmt.Println("        at", o.Pos, strings.Join(o.Res.Tried, " "))
 				}
 				if *vac && o.Static == "" {
 					f := o.File + ".cover.smt2"
